@@ -227,3 +227,143 @@ func ZZ_C10_checkPast() {
 	}
 	zz.Assert("progress_reported_per_round", uint64(calls) == lim)
 }
+
+func init() { zz.Register("ZZ_C10_repair", ZZ_C10_repair) }
+
+// ZZ_C10_repair: the repair path (CorrectPastBeacons -> ReSync -> Sync -> tryNode in re-sync mode, which
+// writes to the raw store). The store holds a chain of m rounds of which a symbolic subset is damaged (missing
+// or carrying a bad signature); the check reports them; the repair runs against peers whose behaviour is
+// symbolic: honest, unreachable, answering with a forged beacon for the requested round, or slipping in a
+// packet for ROUND 0 (the genesis entry, which no signature protects) or for another round with a bad
+// signature. Whatever the peers do, every beacon written verifies for exactly its round, the genesis entry
+// and the healthy rounds are never replaced by something else, and with an honest peer exactly the damaged
+// rounds are restored.
+func ZZ_C10_repair() {
+	nw := zzNewNet(3, 2)
+	m := zz.Param("rounds", 3)
+	gen := &common.Beacon{Round: 0, Signature: []byte("zz-genesis-seed")}
+	good := zzHonestChain(nw, gen, m)
+	base := &zzRepairStore{byRound: map[uint64]*common.Beacon{0: gen}}
+	state := make([]int, m)
+	for i, b := range good {
+		state[i] = zz.Choose(fmt.Sprintf("round%d.state", i+1), 3) // 0 ok, 1 missing, 2 invalid signature
+		switch state[i] {
+		case 0:
+			base.byRound[b.Round] = b
+		case 2:
+			bad := &common.Beacon{Round: b.Round, PreviousSig: b.PreviousSig, Signature: zz.Bytes(fmt.Sprintf("round%d.badsig", i+1), len(b.Signature))}
+			zz.Assume(!bytes.Equal(bad.Signature, b.Signature))
+			base.byRound[b.Round] = bad
+		}
+	}
+	zz.Assume(state[m-1] != 1) // the head exists
+	base.head = uint64(m)
+	clk := zzfake.NewClock(zzGenesis + 1000)
+	client := &zzfake.Client{Clock: clk}
+	npeers := 2
+	beh := make([]int, npeers)
+	peers := make([]net.Peer, npeers)
+	for i := range peers {
+		nb := 5
+		if i == 1 {
+			nb = zz.Param("peer1_behaviours", 5)
+		}
+		beh[i] = zz.Choose(fmt.Sprintf("peer%d.behaviour", i), nb) // 0 honest, 1 unreachable, 2 forged beacon for the round, 3 round-0 packet first, 4 other round with a bad signature first
+		peers[i] = &zzPeer{fmt.Sprintf("peer%d.example:1", i)}
+	}
+	client.SyncFn = func(_ context.Context, p net.Peer, in *proto.SyncRequest) (chan *proto.BeaconPacket, error) {
+		me := 0
+		if p.Address() == peers[1].Address() {
+			me = 1
+		}
+		if beh[me] == 1 {
+			return nil, zzfake.ErrFake
+		}
+		ch := make(chan *proto.BeaconPacket, 4)
+		r := in.GetFromRound()
+		md := &proto.Metadata{BeaconID: nw.group.ID}
+		switch beh[me] {
+		case 2:
+			ch <- &proto.BeaconPacket{Round: r, PreviousSignature: good[r-1].PreviousSig, Signature: zz.Bytes(fmt.Sprintf("peer%d.forged", me), len(good[0].Signature)), Metadata: md}
+		case 3:
+			ch <- &proto.BeaconPacket{Round: 0, Signature: zz.Bytes(fmt.Sprintf("peer%d.fake_genesis", me), 4), Metadata: md}
+		case 4:
+			other := 1 + int(r)%m
+			ch <- &proto.BeaconPacket{Round: uint64(other), PreviousSignature: good[other-1].PreviousSig, Signature: zz.Bytes(fmt.Sprintf("peer%d.forged_other", me), len(good[0].Signature)), Metadata: md}
+		}
+		for _, b := range good {
+			if b.Round >= r {
+				ch <- &proto.BeaconPacket{Round: b.Round, Signature: b.Signature, PreviousSignature: b.PreviousSig, Metadata: md}
+			}
+		}
+		close(ch)
+		return ch, nil
+	}
+	sm := zzSyncManager(nw, base, base, client, clk, "self.example:1")
+	go func() {
+		for range sm.newSyncedBeacon {
+		}
+	}()
+	faulty, err := sm.CheckPastBeacons(context.Background(), uint64(m), func(r, u uint64) {})
+	zz.Assert("check_returns_no_error", err == nil)
+	var want []uint64
+	for i := range state {
+		if state[i] != 0 {
+			want = append(want, uint64(i+1))
+		}
+	}
+	zz.Assert("check_reports_exactly_the_damaged_rounds", len(faulty) == len(want))
+	rerr := sm.CorrectPastBeacons(context.Background(), faulty, peers, func(r, u uint64) {})
+	zz.Quiesce()
+	pub := nw.group.PublicKey.Key()
+	for _, b := range base.puts {
+		zz.Assert("repair_never_touches_the_genesis_entry", b.Round != 0)
+		if b.Round >= 1 && int(b.Round) <= m {
+			zz.Assert("repair_writes_only_verified_beacons", nw.sch.VerifyBeacon(b, pub) == nil)
+			zz.Assert("repair_writes_the_genuine_beacon_of_the_round", bytes.Equal(b.Signature, good[b.Round-1].Signature))
+		}
+	}
+	zz.Assert("genesis_entry_is_intact", bytes.Equal(base.byRound[0].Signature, gen.Signature))
+	for i := range state {
+		if state[i] == 0 {
+			zz.Assert("healthy_round_still_holds_its_genuine_beacon", bytes.Equal(base.byRound[uint64(i+1)].Signature, good[i].Signature))
+		}
+	}
+	anyHonest := beh[0] == 0 || beh[1] == 0
+	if anyHonest {
+		zz.Assert("repair_succeeds_with_an_honest_peer", rerr == nil)
+		for i := range state {
+			b := base.byRound[uint64(i+1)]
+			zz.Assert("damaged_rounds_are_restored", b != nil && bytes.Equal(b.Signature, good[i].Signature))
+		}
+	}
+	if beh[0] == 1 && beh[1] == 1 && len(want) > 0 {
+		zz.Assert("unreachable_peers_are_reported", rerr != nil)
+	}
+}
+
+// zzRepairStore: a round-indexed store that REPLACES on Put (what the raw bolt store does) and records every write.
+type zzRepairStore struct {
+	chain.Store
+	byRound map[uint64]*common.Beacon
+	head    uint64
+	puts    []*common.Beacon
+}
+
+func (s *zzRepairStore) Put(_ context.Context, b *common.Beacon) error {
+	cp := &common.Beacon{Round: b.Round, Signature: append([]byte(nil), b.Signature...), PreviousSig: append([]byte(nil), b.PreviousSig...)}
+	s.byRound[b.Round] = cp
+	s.puts = append(s.puts, cp)
+	if b.Round > s.head {
+		s.head = b.Round
+	}
+	return nil
+}
+func (s *zzRepairStore) Last(context.Context) (*common.Beacon, error) { return s.byRound[s.head], nil }
+func (s *zzRepairStore) Get(_ context.Context, r uint64) (*common.Beacon, error) {
+	if b, ok := s.byRound[r]; ok {
+		return b, nil
+	}
+	return nil, errors.New("zz: no beacon stored for this round")
+}
+func (s *zzRepairStore) Close() error { return nil }
